@@ -863,11 +863,11 @@ func main() {
 	}
 	for _, need := range []string{"BinOp", "Compare", "BoolOp", "Call", "Lambda", "ListComp", "If", "Try", "With", "FunctionDef", "ClassDef", "For", "Subscript", "Starred", "ImportFrom"} {
 		if st.nodeTypes[need] == 0 {
-			common.Inconclusive("property=C06 vacuous run: no %s node in any generated tree", need)
+			common.Vacuous("property=C06 vacuous run: no %s node in any generated tree", need)
 		}
 	}
 	if st.rejected == 0 || st.litOK == 0 || st.lexEqual == 0 {
-		common.Inconclusive("property=C06 vacuous run: rejected=%d literals=%d token streams=%d", st.rejected, st.litOK, st.lexEqual)
+		common.Vacuous("property=C06 vacuous run: rejected=%d literals=%d token streams=%d", st.rejected, st.litOK, st.lexEqual)
 	}
 	rep.Finish()
 }
